@@ -772,11 +772,16 @@ DFANIlocate(int32 file_id, int type, uint16 tag, uint16 ref)
 
         for (i = 0; (i < nanns) && (more_anns != FAIL); i++) {
             if (FAIL == Hinquire(aid, (int32 *)NULL, (uint16 *)NULL, &annref, (int32 *)NULL, (int32 *)NULL,
-                                 (int32 *)NULL, (int16 *)NULL, (int16 *)NULL))
-                HGOTO_ERROR(DFE_INTERNAL, 0);
-
-            if ((int32)FAIL == Hread(aid, (int32)4, datadi))
+                                 (int32 *)NULL, (int16 *)NULL, (int16 *)NULL) ||
+                (int32)FAIL == Hread(aid, (int32)4, datadi)) {
+                /* an annotation cannot be read: end the access element (the caller closes the
+                   file) and drop the half-filled directory */
+                Hendaccess(aid);
+                free(DFANdir[type]->entries);
+                free(DFANdir[type]);
+                DFANdir[type] = NULL;
                 HGOTO_ERROR(DFE_READERROR, 0);
+            }
 
             /* get data tag/ref */
             DFANdir[type]->entries[i].annref = annref;
